@@ -21,23 +21,34 @@ fn main() {
         if line.is_empty() || line.starts_with('#') {
             continue;
         }
-        let toks: Vec<&str> = line.split(' ').collect();
-        if toks.len() < 2 {
-            continue;
-        }
-        let id = toks[0];
-        let out = match std::panic::catch_unwind(|| match toks[1] {
-            "flw" => flw::run_case(id, &toks[2..]),
-            "spec" => lg::run_spec(&toks[2..]),
-            "specb" => lg::run_specb(&toks[2..]),
-            "lg" => lg::run_lg(id, &toks[2..]),
-            k => format!("HARNESS-ERROR unknown kind {k}"),
-        }) {
-            Ok(s) => s,
-            Err(e) => format!(
-                "HARNESS-ERROR {}",
-                e.downcast_ref::<String>().cloned().or_else(|| e.downcast_ref::<&str>().map(|s| s.to_string())).unwrap_or_default()
-            ),
+        // every case runs in a thread of its own: flexi_logger formats into a thread-local buffer, and what a
+        // panicking write leaves in it must not leak into the next case
+        let line2 = line.clone();
+        let handle = std::thread::spawn(move || {
+            let toks: Vec<&str> = line2.split(' ').collect();
+            if toks.len() < 2 {
+                return None;
+            }
+            let id = toks[0].to_string();
+            let out = match std::panic::catch_unwind(|| match toks[1] {
+                "flw" => flw::run_case(toks[0], &toks[2..]),
+                "spec" => lg::run_spec(&toks[2..]),
+                "specb" => lg::run_specb(&toks[2..]),
+                "lg" => lg::run_lg(toks[0], &toks[2..]),
+                k => format!("HARNESS-ERROR unknown kind {k}"),
+            }) {
+                Ok(s) => s,
+                Err(e) => format!(
+                    "HARNESS-ERROR {}",
+                    e.downcast_ref::<String>().cloned().or_else(|| e.downcast_ref::<&str>().map(|s| s.to_string())).unwrap_or_default()
+                ),
+            };
+            Some((id, out))
+        });
+        let (id, out) = match handle.join() {
+            Ok(Some(x)) => x,
+            Ok(None) => continue,
+            Err(_) => (line.split(' ').next().unwrap_or("?").to_string(), "HARNESS-ERROR case thread died".to_string()),
         };
         {
             use std::io::Write;
